@@ -20,3 +20,16 @@ Lemma C08_inst_discovery_sorted :
   Nat.leb 2 (List.length (filter (pstr_eqb (s2p "sorted")) (ff_calls disc_fact))) = true.
 Proof. vm_compute. reflexivity. Qed.
 Print Assumptions C08_inst_discovery_sorted.
+
+(* the test set keeps the registry's order: plugins are filtered out of the ordered list extman.plugins, the
+   built-in check is appended, and _load_tests walks that list and each plugin's declared node types in order -
+   no set or dict iteration decides the order in which checks run (and so the order of findings on one node) *)
+Lemma C08_inst_testset_order :
+  (fix eqb (a b : list pstr) : bool :=
+     match a, b with [], [] => true | x :: a', y :: b' => pstr_eqb x y && eqb a' b' | _, _ => false end)
+    TESTSET_ORDER
+    [s2p "[p for p in extman.plugins if p.plugin._test_id in filtering]";
+     s2p "self.plugins.extend(self._load_builtins(filtering, profile))";
+     s2p "for plugin in plugins"; s2p "for check in plugin.plugin._checks"] = true.
+Proof. vm_compute. reflexivity. Qed.
+Print Assumptions C08_inst_testset_order.
